@@ -80,7 +80,7 @@ class Algorithms:
     @property
     def maxlen(self) -> int:
         def _ml(items: Sequence[str]) -> int:
-            return max(len(i) for i in items)
+            return max((len(i) for i in items), default=0)
         maxlen = 0
         if self.ssh1kex is not None:
             maxlen = max(_ml(self.ssh1kex.supported_ciphers),
